@@ -3,8 +3,11 @@ use rusty_bit_vec::{BitVec, INT_BITS};
 // const FLOAT_BITS: usize = 32;
 const DOUBLE_BITS: usize = 64;
 
+#[cfg(test)]
 const DOUBLE_EXPONENT_BITS: usize = 11;
+#[cfg(test)]
 const DOUBLE_SIGNIFICANT_BITS: usize = 52;
+#[cfg(test)]
 const DOUBLE_BIAS: i32 = 1023;
 
 pub fn qb_and(a: i32, b: i32) -> i32 {
@@ -42,22 +45,11 @@ pub fn bytes_to_i32(b: [u8; 2]) -> i32 {
 }
 
 pub fn f64_to_bytes(f: f64) -> [u8; 8] {
-    // bits is msb -> lsb
-    let bits = f64_to_bits(f);
-    debug_assert_eq!(DOUBLE_BITS, bits.len());
-    // result is lsb -> msb
-    [
-        msb_bits_to_byte(&bits[56..64]),
-        msb_bits_to_byte(&bits[48..56]),
-        msb_bits_to_byte(&bits[40..48]),
-        msb_bits_to_byte(&bits[32..40]),
-        msb_bits_to_byte(&bits[24..32]),
-        msb_bits_to_byte(&bits[16..24]),
-        msb_bits_to_byte(&bits[8..16]),
-        msb_bits_to_byte(&bits[0..8]),
-    ]
+    // the IEEE-754 binary64 encoding, least significant byte first
+    f.to_bits().to_le_bytes()
 }
 
+#[cfg(test)]
 fn f64_to_bits(value: f64) -> Vec<bool> {
     match f64_abs_normalize_value(value) {
         Some((absolute_value, initial_exponent)) => {
@@ -70,6 +62,7 @@ fn f64_to_bits(value: f64) -> Vec<bool> {
     }
 }
 
+#[cfg(test)]
 macro_rules! int_to_bits_vec {
     ($value: expr, $bits: expr, $bit_index: expr) => {{
         let mut temp = $value;
@@ -81,6 +74,7 @@ macro_rules! int_to_bits_vec {
     }};
 }
 
+#[cfg(test)]
 fn f64_to_bits_for_normalized_value(
     is_negative: bool,
     absolute_value: f64,
@@ -130,6 +124,7 @@ fn f64_to_bits_for_normalized_value(
     bits
 }
 
+#[cfg(test)]
 fn f64_int_bits(absolute_value: f64) -> Vec<bool> {
     let mut int_bits: Vec<bool> = vec![];
     int_to_bits_vec!(absolute_value.trunc() as i64, int_bits, 0);
@@ -137,6 +132,7 @@ fn f64_int_bits(absolute_value: f64) -> Vec<bool> {
     int_bits
 }
 
+#[cfg(test)]
 fn f64_fractional_bits(absolute_value: f64) -> Vec<bool> {
     let mut fraction_value = absolute_value.fract();
     let mut fraction_bits: Vec<bool> = vec![];
@@ -152,6 +148,7 @@ fn f64_fractional_bits(absolute_value: f64) -> Vec<bool> {
     fraction_bits
 }
 
+#[cfg(test)]
 fn f64_abs_normalize_value(value: f64) -> Option<(f64, usize)> {
     let mut absolute_value = value.abs();
     let mut exponent: usize = 0;
@@ -187,44 +184,12 @@ fn fmt_bits_into_string(s: &mut String, bits: &[bool]) {
 
 pub fn bytes_to_f64(bytes: &[u8]) -> f64 {
     // bytes is lsb -> msb
-    // bits is msb -> lsb
     debug_assert_eq!(bytes.len(), DOUBLE_BITS / 8);
-    let bits: Vec<bool> = lsb_bytes_to_msb_bits(bytes);
-    debug_assert_eq!(bits.len(), DOUBLE_BITS);
-    let sign = bits[0];
-
-    let exponent_bits = &bits[1..DOUBLE_EXPONENT_BITS + 1];
-    debug_assert_eq!(DOUBLE_EXPONENT_BITS, exponent_bits.len());
-    let mut exponent_with_bias: i32 = 0;
-    for exponent_bit in exponent_bits.iter() {
-        exponent_with_bias *= 2;
-        if *exponent_bit {
-            exponent_with_bias += 1;
-        }
+    let mut array: [u8; 8] = [0; 8];
+    for (target, source) in array.iter_mut().zip(bytes.iter()) {
+        *target = *source;
     }
-
-    // exponent_with_bias == 0 && F == 0 -> 0
-    // exponent_with_bias == 0 && F!= 0 -> subnormals
-    // exponent_with_bias == 0x7ff (all 1s) && F == 0 -> inf
-    // exponent_with_bias == 0x7ff (all 1s) && F != 0 -> NaN
-
-    let significant_bits = &bits[1 + DOUBLE_EXPONENT_BITS..];
-    debug_assert_eq!(DOUBLE_SIGNIFICANT_BITS, significant_bits.len());
-
-    // 1.significant * 2 ^ exponent - bias
-    let mut result: f64 = 1.0;
-    for (i, bit) in significant_bits.iter().enumerate() {
-        if *bit {
-            result += 2.0_f64.powi(-(i as i32) - 1);
-        }
-    }
-
-    if result == 1.0 && exponent_with_bias == 0 {
-        return 0.0;
-    }
-
-    result *= 2.0_f64.powi(exponent_with_bias - DOUBLE_BIAS);
-    if sign { -result } else { result }
+    f64::from_bits(u64::from_le_bytes(array))
 }
 
 /// Converts the given bit array into a byte.
